@@ -84,7 +84,7 @@ CHECKS = {
     },
     "C11": {
         "level": "exploration",
-        "rule": "insertion-order profiles (ascending, descending, alternating ends, random with removals, remove-a-contiguous-run to empty subtrees) with interleaved commits, trees up to 300 keys (quick) / 3000 keys (thorough); for the working tree and every version: Height()/Size() equal the reference tree's and satisfy h <= 1.4405*log2(n+2); GetByIndex(i) = i-th sorted pair and GetWithIndex(k) = rank for ALL keys and ranks, insertion rank for absent neighbours, nil for out-of-range ranks (n, n+5, -1); with cache size 0 on a counting storage wrapper, on fresh tree objects: <= 2h+2 storage reads for Get (walk) / Has / GetWithIndex / GetByIndex / Get(absent), <= 10h+10 for GetProof. non-trivial = size >= 8 and >= 1 double rotation in the reference; distinct = sha256 of the op list",
+        "rule": "insertion-order profiles (ascending, descending, alternating ends, random with removals, remove-a-contiguous-run to empty subtrees) with interleaved commits, trees up to 300 keys (quick) / 3000 keys (thorough); for the working tree and every version: Height()/Size() equal the reference tree's and satisfy h <= 1.4405*log2(n+2); GetByIndex(i) = i-th sorted pair and GetWithIndex(k) = rank for ALL keys and ranks, insertion rank for absent neighbours, nil for out-of-range ranks (n, n+5, -1); Has and Get of every key agree with the rank lookups, and keys of the last committed version removed in the working tree are absent for GetWithIndex, Has and Get alike; fast index on in a third of the cases; with cache size 0 on a counting storage wrapper, on fresh tree objects: <= 2h+2 storage reads for Get (walk) / Has / GetWithIndex / GetByIndex / Get(absent), <= 10h+10 for GetProof. non-trivial = size >= 8 and >= 1 double rotation in the reference; distinct = sha256 of the op list",
         "assumptions": _ASSUME + ["storage reads are counted at the KVStore interface (Get/Has calls) with the node cache disabled"],
         "quick": [{"test": "TestC11", "checks": 120, "shards": 8}],
         "thorough": [{"test": "TestC11", "checks": 2500, "shards": 16, "env": {"VERIF_TIER": "thorough"}}],
